@@ -97,7 +97,10 @@ for pid, rule in [
 ]:
     PROPS[pid] = dict(level="exploration", rule=rule, assumptions=ME_ASSUME,
                       stages=[dict(name="mesim", engine="mesim", test="TestVerifME", batches=dict(quick=8, thorough=16),
-                                   essential=ME_ESSENTIAL, timeout=dict(quick=900, thorough=7200))])
+                                   essential=ME_ESSENTIAL, timeout=dict(quick=900, thorough=7200)),
+                              dict(name="mesim-exhaustive", engine="mesim", test="TestVerifMEExhaustive", batches=dict(quick=8, thorough=16),
+                                   essential={"C13": ["C13.exhaustive-sequences"], "C14": ["C14.exhaustive-sequences"]}, timeout=dict(quick=900, thorough=7200))])
+    PROPS[pid]["rule"] += "; mesim-exhaustive stage: every op sequence of length 3 (quick) / 5 (thorough) over an alphabet of 6 availability reports, 6 list replacements and up to 5 clock advances on 3 endpoints, for 6 (recovery,delay) configurations (bounded-exhaustive; every rule evaluated after every step)"
 
 PROPS["C11"] = dict(level="exploration",
     rule="seeded random Go types (reflect.StructOf: strings, ints, bools, []byte, nested structs, pointers, slices, interfaces, maps, arrays, embedded structs/pointers, nil at every pointer/slice position) x locators (valid walks, missing/extra/empty segments, wrong case, non-identifiers) plus generated pb.ApiConfig messages; non-trivial = the reference gives a definite answer (exact keys or must-be-error); distinct = hash of (value description, locator)",
@@ -163,13 +166,13 @@ PROPS["C10"] = dict(level="exploration",
     rule="race-instrumented executions of 4 workloads (balancer driven as gRPC does x 6 feature configurations; GCPMultiEndpoint RPCs || updates || outages; MultiEndpoint reports || list updates || Current with real timers; stream wrapper sender || receiver || bystanders), each with seeded yield-site schedule perturbation; non-trivial = every execution (its op counts and the overlap pairs actually observed are in the evidence); distinct = (workload, configuration, run index)",
     assumptions=["the Go race detector only reports accesses that actually happened in an execution; harness state is synchronised only at the boundary and verifYield adds no happens-before edges",
                  "reports whose two stacks contain no repo frame make the run inconclusive, never a verdict"],
-    stages=[dict(name="race-balancer", engine="stress", test="TestVerifRaceBalancer", race=True, batches=dict(quick=6, thorough=18),
+    stages=[dict(name="race-balancer", engine="stress", test="TestVerifRaceBalancer", race=True, gomaxprocs=[16, 4, 16, 2, 16, 8, 16], batches=dict(quick=6, thorough=18),
                  essential={"C10": ["C10.picks", "C10.placed", "C10.swaps-completed", "C10.overlap:callback||pick", "C10.overlap:callback||done", "C10.overlap:pick||done", "C10.overlap:done||done", "C10.overlap:pick||pick"]},
                  timeout=dict(quick=900, thorough=7200), crash_props=["C10"]),
             dict(name="race-gme", engine="gmerace", test="TestVerifRaceGME", race=True, batches=dict(quick=3, thorough=12),
                  essential={"C10": ["C10.gme-rpcs-ok", "C10.gme-updates", "C10.gme-outages", "C10.gme-config-reads"]},
                  timeout=dict(quick=900, thorough=7200), crash_props=["C10"]),
-            dict(name="race-me", engine="merace", test="TestVerifRaceME", race=True, batches=dict(quick=6, thorough=12),
+            dict(name="race-me", engine="merace", test="TestVerifRaceME", race=True, gomaxprocs=[16, 4, 2], batches=dict(quick=6, thorough=12),
                  essential={"C10": ["C10.me-reports", "C10.me-set-endpoints", "C10.me-current-reads", "C10.me-constructions"]},
                  timeout=dict(quick=900, thorough=7200), crash_props=["C10"]),
             dict(name="race-stream", engine="streamrace", test="TestVerifRaceStream", race=True, batches=dict(quick=4, thorough=12),
